@@ -5,21 +5,33 @@ import RedisVerif.Props.C05
   C05 sub-driver (stateful): the connection-level transaction machine `Txn.step` and the
   executor-level machine `Txn.xstep`, both over the tiny concrete store `KV`.
 
+    G proto-flags <0|1>         → ok          which tree the model follows (harness/src/c05.rs
+                                              CODE_PROTO_ERROR_FLAGS): 1 = a protocol error inside
+                                              MULTI flags the transaction (`Txn.stepFixed`)
     NEW                         → ok          fresh connection + empty store
+    RECONNECT                   → ok          the connection is dropped, a new one opened (store kept)
     C MULTI | DISCARD | UNWATCH → reply       input of the modelled connection
     C WATCH <n> <key>*          → reply
     C EXEC <slots> (<m> <cmd>{m}){slots}      EXEC with the other clients' commands per await slot
     C CMD <cmd>                 → reply       parsed data command
     C UNK | C PERR              → reply       unknown command / `from_resp_zero_copy` error
+    C PROTO                     → reply       bytes `RespCodec::parse` rejects (protocol error)
     C CHAN                      → reply       PUBLISH stub
     C LOCAL <id>                → reply       0 AUTH x, 1 ACL WHOAMI, 2 RESET, 3 CLIENT SETNAME a
     F <cmd>                     → reply       a command of another client, between two inputs
     DUMP                        → <n> (<key> S <val> | <key> L <m> <val>*)*
     XNEW / X <input> / XDUMP    the same for the executor-level machine (inputs: MULTI EXEC
                                 DISCARD UNWATCH, WATCH <n> <key>*, CMD <cmd>)
+    SNEW / S <client> <input> / SDUMP   ONE executor-level machine shared by several clients
+                                (`SimulationHarness::execute(client_id, …)`): the client id is ignored
+    RNEW / R <input> / RDUMP    the replicated front end (`ReplicatedShardedState::execute`)
+    TBL <inTxn> <errors> <w:0 none|1 same|2 changed> <qlen> <input class>
+                                → <reply class> <inTxn'> <errors'> <qlen' | -> <old watch armed 01 | -> <new key armed 01 | ->
+                                one cell of the connection-level decision table (`tableReply` …)
     <cmd> ::= GET k | SET k v | INCR k | APPEND k v | DEL k | RPUSH k <n> v* | LRANGE k | LLEN k
             | LSET k v (index 0) | LPOP k | HSET k f v | HDEL k f | SADD k m | SREM k m
             | ZADD k <int> m | ZREM k m | EXPIRE k | PERSIST k <had01> | EVICT k
+            | MSET <n> (k v){n} | MGET <n> k{n} | DELM <n> k{n}
             | PING | UNWATCH | UNK | LOCAL <id>
 -/
 namespace RedisVerif.Driver.C05
@@ -61,6 +73,12 @@ def cmdP : P KV.Cmd := do
   | "EXPIRE" => do let k ← strKey; pure (.expire k)
   | "PERSIST" => do let k ← strKey; let h ← nat; pure (.persist k (h != 0))
   | "EVICT" => do let k ← strKey; pure (.evict k)
+  | "MSET" => do
+    let n ← nat
+    let ps ← repeatP n (do let k ← strKey; let v ← bytesTok; pure (k, v))
+    pure (.mset ps)
+  | "MGET" => do let n ← nat; let ks ← repeatP n strKey; pure (.mget ks)
+  | "DELM" => do let n ← nat; let ks ← repeatP n strKey; pure (.delm ks)
   | "PING" => pure .ping
   | "UNWATCH" => pure .unwatch
   | "UNK" => pure .unknown
@@ -86,6 +104,7 @@ def inputP : P (Input Nat KV.Cmd × List (List KV.Cmd)) := do
   | "CMD" => do let c ← cmdP; pure (.cmd c, [])
   | "UNK" => pure (.unknown .unknown, [])
   | "PERR" => pure (.parseErr, [])
+  | "PROTO" => pure (.protoErr, [])
   | "CHAN" => pure (.chanStub (.loc .publish), [])
   | "LOCAL" => do
     let n ← nat
@@ -113,6 +132,9 @@ def showRep : KV.Rep → String
   | .bulk none => "$-"
   | .bulk (some b) => "$" ++ hexOfBytes b
   | .arr l => " ".intercalate (s!"*{l.length}" :: l.map (fun b => "$" ++ hexOfBytes b))
+  | .marr l => " ".intercalate (s!"*{l.length}" :: l.map (fun
+      | some b => "$" ++ hexOfBytes b
+      | none => "$-"))
   | .err .wrongType => "-wrongtype"
   | .err .notInt => "-notint"
   | .err .overflow => "-overflow"
@@ -129,6 +151,7 @@ def showConnErr : ConnErr → String
   | .unknownInMulti => "-unknown-args"
   | .noperm => "-noperm"
   | .parse => "-parse"
+  | .protocol => "-protocol"
 
 def showReply : Reply KV.Rep → String
   | .ok => "+OK"
@@ -165,13 +188,57 @@ structure St where
   store : KV.Store
   xt : ExTxn Nat KV.Cmd KV.Val
   xstore : KV.Store
+  sht : ExTxn Nat KV.Cmd KV.Val
+  shstore : KV.Store
+  rstore : KV.Store
+  /-- which tree the connection-level machine follows: false = the current one, true = with the
+      proposed fix "a protocol error between MULTI and EXEC flags the transaction" -/
+  protoFlags : Bool
 
-def St.init : St := { conn := ConnTxn.idle, store := [], xt := ExTxn.idle, xstore := [] }
+def St.init : St :=
+  { conn := ConnTxn.idle, store := [], xt := ExTxn.idle, xstore := [], sht := ExTxn.idle,
+    shstore := [], rstore := [], protoFlags := false }
+
+def showRReply : RReply KV.Rep → String
+  | .ok => "+OK"
+  | .errUnknown => "-unknown-global"
+  | .plain r => showRep r
+
+def iclsOf : String → Option ICls
+  | "MULTI" => some .multi | "EXEC" => some .exec | "DISCARD" => some .discard
+  | "UNWATCH" => some .unwatch | "WATCH" => some .watch | "CMD" => some .cmd
+  | "UNK" => some .unknown | "CHAN" => some .chanStub | "LOCAL" => some .connLocal
+  | "PERR" => some .parseErr | "PROTO" => some .protoErr
+  | _ => none
+
+def showRCls : RCls → String
+  | .ok => "ok" | .queued => "queued" | .err e => showConnErr e | .nil => "nil"
+  | .results n => s!"results:{n}" | .plain => "plain"
+
+def showWAct : WAct → String
+  | .keep => "keep" | .clear => "clear" | .extend => "extend"
+
+def b01 (b : Bool) : String := if b then "1" else "0"
+
+/-- one cell, in the form the harness can OBSERVE on the real handler: the queue length only
+    when a probe EXEC would show it, the fate of the watched key only when a probe can tell -/
+def tblCell (inTxn errors : Bool) (w q : Nat) (c : ICls) : String :=
+  let nx := tableNext inTxn errors c
+  let wa := tableWatch inTxn c
+  let q' := if nx.1 && !nx.2 && w != 2 then toString (tableQueue inTxn q c) else "-"
+  let armed := if nx.1 && nx.2 then "-" else b01 (w != 0 && wa != .clear)
+  let newArmed := if c != .watch || w == 2 || (nx.1 && nx.2) then "-" else b01 (wa == .extend)
+  " ".intercalate [showRCls (tableReply inTxn errors (w == 2) q c), b01 nx.1, b01 nx.2, q', armed,
+    newArmed]
 
 def step (st : St) (line : String) : St × String :=
   match tokens line with
   | ["NEW"] => ({ st with conn := ConnTxn.idle, store := [] }, "ok")
   | ["XNEW"] => ({ st with xt := ExTxn.idle, xstore := [] }, "ok")
+  | ["G", "proto-flags", v] => ({ st with protoFlags := v == "1" }, "ok")
+  -- the modelled client's connection is closed and a new one opened: the connection-level state
+  -- goes away with it, the store stays (`abandoned_txn_has_no_effect`)
+  | ["RECONNECT"] => ({ st with conn := ConnTxn.idle }, "ok")
   | ["DUMP"] => (st, showStore st.store)
   | ["XDUMP"] => (st, showStore st.xstore)
   | ["XEVICT", k] =>
@@ -182,7 +249,7 @@ def step (st : St) (line : String) : St × String :=
   | "C" :: rest =>
     match (inputP.run rest) with
     | some ((inp, sc), []) =>
-      let r := Txn.step KV.backend sc st.conn st.store inp
+      let r := Txn.stepWith st.protoFlags KV.backend sc st.conn st.store inp
       ({ st with conn := r.1, store := r.2.1 }, showReply r.2.2)
     | _ => (st, "bad-op")
   | "F" :: rest =>
@@ -191,6 +258,33 @@ def step (st : St) (line : String) : St × String :=
       let r := KV.exec st.store c
       ({ st with store := r.1 }, showRep r.2)
     | _ => (st, "bad-op")
+  | ["SNEW"] => ({ st with sht := ExTxn.idle, shstore := [] }, "ok")
+  | ["SDUMP"] => (st, showStore st.shstore)
+  | ["RNEW"] => ({ st with rstore := [] }, "ok")
+  | ["RDUMP"] => (st, showStore st.rstore)
+  | "S" :: _client :: rest =>
+    match (xinputP.run rest) with
+    | some (inp, []) =>
+      let r := Txn.xsharedRun KV.xbackend (.simple .ok) st.sht st.shstore [(0, inp)]
+      match r.2.2 with
+      | [(_, rep)] => ({ st with sht := r.1, shstore := r.2.1 }, showXReply rep)
+      | _ => (st, "bad-op")
+    | _ => (st, "bad-op")
+  | "R" :: rest =>
+    match (xinputP.run rest) with
+    | some (inp, []) =>
+      let r := Txn.rstep KV.exec st.rstore inp
+      ({ st with rstore := r.1 }, showRReply r.2)
+    | _ => (st, "bad-op")
+  | ["TBL", a, e, w, q, c] =>
+    match a.toNat?, e.toNat?, w.toNat?, q.toNat?, iclsOf c with
+    | some a, some e, some w, some q, some c =>
+      -- with the proposed fix the row (inside MULTI, protocol error) is the row of an arity error
+      -- up to the error text
+      if st.protoFlags && a != 0 && c == .protoErr then
+        (st, (tblCell true (e != 0) w q .parseErr).replace "-parse" "-protocol")
+      else (st, tblCell (a != 0) (e != 0) w q c)
+    | _, _, _, _, _ => (st, "bad-op")
   | "X" :: rest =>
     match (xinputP.run rest) with
     | some (inp, []) =>
